@@ -14,6 +14,7 @@ import (
 	"io"
 	"os"
 	"runtime"
+	"strings"
 	"sync"
 	"time"
 
@@ -74,7 +75,10 @@ func witness(f *feed, damage string, cl string, got result) string {
 // answer is the protocol form of an outcome.
 func answer(f *feed, cl string, got result) string {
 	switch f.t.loop {
-	case "lines", "records", "records-cvss":
+	case "lines", "records", "records-cvss", "csv-epss", "csv-vex-del", "csv-vex-chg":
+		if got.ok() {
+			return fmt.Sprintf("ok %d", got.lines)
+		}
 		switch cl {
 		case clEqual, clSubset:
 			return fmt.Sprintf("ok %d", got.lines)
@@ -108,6 +112,13 @@ func judge(r *hx.Run, f *feed, kind, damage string, damaged []byte, haveSpool bo
 				r.Fail(f.t.findingClass(), witness(f, damage, cl, got))
 			}
 			return cl
+		}
+		if haveSpool && f.t.special != nil {
+			if id := f.t.special(damaged, f.intact, got, cl); id != "" {
+				r.Count(kind + ":" + f.t.name + ":" + cl + ":" + id)
+				r.Fail(id, witness(f, damage, cl, got))
+				return cl
+			}
 		}
 		r.Fail("", witness(f, damage, cl, got))
 	default:
@@ -211,7 +222,7 @@ func sweepFeed(r *hx.Run, f *feed, rnd *hx.Rand, cfg hx.Config) {
 		r.Op("reset", "ok", false)
 		feedAns := ""
 		switch t.loop {
-		case "one-json", "one-json-end", "one-xml", "one-xml-drain":
+		case "one-json", "one-json-end", "one-xml", "one-xml-drain", "one-json-drain":
 			feedAns = fmt.Sprintf("complete %d", minOK)
 		default:
 			feedAns = fmt.Sprintf("ok %d", f.intact.lines)
@@ -415,7 +426,7 @@ func replayKnown(r *hx.Run, ts []target) {
 		try := func(damage string, d []byte) bool {
 			got := f.run(d)
 			if classify(f.intact, got) == clSubset && t.valid(d) {
-				r.KnownSeen("still-valid-"+t.name, witness(f, damage, clSubset, got))
+				r.KnownSeen(t.findingClass(), witness(f, damage, clSubset, got))
 				return true
 			}
 			return false
@@ -424,6 +435,35 @@ func replayKnown(r *hx.Run, ts []target) {
 			if t.loop == "lines" || t.loop == "records" || t.loop == "records-cvss" {
 				found = try(fmt.Sprintf("spool-cut@%d/%d", k, len(spool)), spool[:k])
 			}
+		}
+		if strings.HasPrefix(t.loop, "csv-") {
+			// the record formats inside Fetch: the text cut at a record boundary
+			rewrap := t.rewrap
+			if rewrap == nil {
+				rewrap = func(b []byte) []byte { return b }
+			}
+			for k := len(plain) - 1; k > 0 && !found; k-- {
+				if plain[k-1] == '\n' {
+					got := f.run(rewrap(plain[:k]))
+					if classify(f.intact, got) == clSubset && t.valid(rewrap(plain[:k])) {
+						r.KnownSeen(t.findingClass(), witness(f, fmt.Sprintf("plain-cut@%d/%d", k, len(plain)), clSubset, got))
+						found = true
+					}
+				}
+			}
+			if t.special != nil {
+				// the last record cut right after its last comma
+				if i := bytes.LastIndexByte(bytes.TrimRight(plain, "\r\n"), ','); i > 0 {
+					d := rewrap(plain[:i+1])
+					got := f.run(d)
+					cl := classify(f.intact, got)
+					if id := t.special(d, f.intact, got, cl); id != "" {
+						r.KnownSeen(id, witness(f, fmt.Sprintf("plain-cut@%d/%d", i+1, len(plain)), cl, got))
+					}
+				}
+			}
+			r.Count(fmt.Sprintf("known-replay:%s:%v", t.name, found))
+			continue
 		}
 		for pos := 0; pos < len(spool) && !found; pos++ {
 			for _, x := range []byte{1, 2, 4} {
